@@ -20,6 +20,24 @@ RULE = ("all rules of spec/VocabRules.tla hold on the extracted tables; every sl
 VERSIONS = [None, 5.0, 6.0, 7.0, 7.6, 8.0, 8.2, 8.4]
 
 
+def skeleton_expected(av):
+    """keys / nesting of the dict spec/Reader.tla predicts (values abstracted away)"""
+    if av["py"] == "dict":
+        return ("dict", av["type"], [(k if isinstance(k, str) else "*", skeleton_expected(v)) for k, v in av["items"]])
+    if av["py"] == "list" and av["elems"] and av["elems"][0]["py"] == "dict":
+        return [skeleton_expected(e) for e in av["elems"]]
+    return "leaf"
+
+
+def skeleton_real(p):
+    if isinstance(p, tuple) and p and p[0] == "dict":
+        kv = p[1] in ("metadata", "validation", "values", "connectionoptions") or p[1] == ""
+        return ("dict", p[1], [("*" if kv else k, skeleton_real(v)) for k, v in p[2]])
+    if isinstance(p, list) and p and isinstance(p[0], tuple) and p[0] and p[0][0] == "dict":
+        return [skeleton_real(e) for e in p]
+    return "leaf"
+
+
 class LogCatcher(logging.Handler):
     def __init__(self):
         super().__init__()
@@ -94,6 +112,12 @@ def run(tier):
                     ck.violation("C19|parse|%s|%s" % (where, type(ex).__name__), "schema keyword/alternative not parseable here: %s" % str(ex)[:100],
                                  {"text": text})
                     continue
+                if ctxp is None and not (t == "layer" and slot[1] != "type"):
+                    # stored where the contract (and every parent schema) says: singleton vs plural list key
+                    es, rs = skeleton_expected(h[-1]["post"]), skeleton_real(project.project(d))
+                    if es != rs:
+                        ck.violation("C19|storage|%s" % where, "stored under different keys / nesting than the schema and the text-to-dict contract say: expected %r got %r" % (es, rs),
+                                     {"text": text})
                 del catcher.records[:]
                 try:
                     out = dumps(d)
